@@ -9,6 +9,12 @@ pub mod lair;
 pub mod feeflow;
 pub mod config;
 pub mod toggles;
+pub mod stable2;
+pub mod trio;
+pub mod trio_gen;
+pub mod registry;
+pub mod weight;
+pub mod incentive;
 
 pub fn make(name: &str, variant: &str) -> Option<Box<dyn Engine>> {
     match name {
@@ -22,6 +28,11 @@ pub fn make(name: &str, variant: &str) -> Option<Box<dyn Engine>> {
         "feeflow" => Some(Box::new(feeflow::Feeflow::new(variant))),
         "toggles" => Some(Box::new(toggles::Toggles::new(variant))),
         "config" => Some(Box::new(config::Config::new(variant))),
+        "stable2" => Some(Box::new(stable2::Stable2::new(variant))),
+        "trio" => Some(Box::new(trio::Trio::new(variant))),
+        "registry" => Some(Box::new(registry::Registry::default())),
+        "weight" => Some(Box::new(weight::Weight::default())),
+        "incentive" => Some(Box::new(incentive::Incentive::default())),
         _ => None,
     }
 }
